@@ -204,6 +204,8 @@ class WindowedMeanSquaredError(
     def merge_state(
         self: TWindowedMeanSquaredError, metrics: Iterable[TWindowedMeanSquaredError]
     ) -> TWindowedMeanSquaredError:
+        # `metrics` may be a one-shot iterable; it is walked more than once below
+        metrics = list(metrics)
         merge_max_num_updates = self.max_num_updates
         for metric in metrics:
             merge_max_num_updates += metric.max_num_updates
